@@ -1,7 +1,7 @@
 (* Structure/Siblings.v -- StructureChecker::check_siblings, derive_sibling_path and
    extract_stem_from_pattern (checker/structure/mod.rs:301-507) (C07).
-   The directory matcher of a sibling rule is the rule's scope on the raw parent path (oracle column
-   c_lim_scope of the parent, carried by the entry as e_plim); the file matcher of a directed rule is
+   The directory matcher of a sibling rule is the rule's scope on the normalised parent path (oracle column
+   c_scope of the parent, carried by the entry as e_plim); the file matcher of a directed rule is
    the oracle column c_sib.  File names are valid UTF-8 (non-UTF-8 names are skipped by the code and
    are not modelled). Definitions only. *)
 From Coq Require Import ZArith NArith List Bool Arith.
